@@ -388,12 +388,13 @@ where
         let before = p.strong();
         drop(g);
         let after = p.strong();
-        if before != 2 || after != 2 {
+        // a guard from the slow path owns a reference of its own (3 while it lives), one from the fast path is a mere debt (2)
+        if after != 2 || !(before == 2 || before == 3) {
             crate::viol::report(
                 "C10",
                 "guard-released-what-it-did-not-hold",
                 format!(
-                    "node hand-over round {}: nothing was stored, yet the value's count was {} while a guard that outlived its thread existed and {} after dropping it (expected 2 and 2: container + one handle); the thread that adopted the node {} the same node",
+                    "node hand-over round {}: nothing was stored, yet the value's count was {} while a guard that outlived its thread existed and {} after dropping it (expected 2 or 3, then 2: container + one handle); the thread that adopted the node {} the same node",
                     round, before, after, if a_node == c_node { "got" } else { "did not get" }
                 ),
             );
